@@ -4,7 +4,7 @@ package core
 
 // Contracts for the verif build tag (comment-only; see /verif/DESIGN.md).
 
-//@ prop C04
+//@ prop C04,C06
 //@ import vm github.com/nspcc-dev/neo-go/pkg/vm
 
 // A transaction's DAO layer is merged into the block's layer only when its execution did not
